@@ -359,7 +359,9 @@ func persistCase(c *Ctx, o persistObj, second *persistObj) {
 	t := o.fresh()
 	var rn int64
 	var rerr error
+	c.pending(append(props, "C18"), o.kind+"-readfrom-kills-process", fmt.Sprintf("%s: ReadFrom of its own complete image through a %s stream ended the process (fatal runtime error)", o.kind, readerKindName(rkind)), replay)
 	res = safely(func() { rn, rerr = t.readFrom(wrapReader(stream, rkind, c.rng.Int63())) })
+	c.done()
 	c.op("ReadFrom." + o.kind)
 	if res.panicked || rerr != nil {
 		c.fail(append(props, "C18"), o.kind+"-readfrom-fails", fmt.Sprintf("%s: ReadFrom of a complete image failed: %v %v", o.kind, res.panicVal, rerr), replay)
@@ -401,7 +403,9 @@ func persistCase(c *Ctx, o persistObj, second *persistObj) {
 			t1, t2 := o.fresh(), second.fresh()
 			var m1, m2 int64
 			var er1, er2 error
+			c.pending(props, o.kind+"+"+second.kind+"-back-to-back-kills-process", fmt.Sprintf("%s then %s in one stream: reading them back ended the process (fatal runtime error)", o.kind, second.kind), replay)
 			r3 := safely(func() { m1, er1 = t1.readFrom(shared); m2, er2 = t2.readFrom(shared) })
+			c.done()
 			if r3.panicked || er1 != nil || er2 != nil || rd.Len() != 0 || m1 != n1 || m2 != n2 {
 				c.fail(props, o.kind+"+"+second.kind+"-back-to-back", fmt.Sprintf("%s then %s in one stream: read failed or misaligned (%v %v %v, %d left, counts %d/%d vs %d/%d)", o.kind, second.kind, r3.panicVal, er1, er2, rd.Len(), m1, m2, n1, n2), replay)
 			} else if t2.queries() != second.queries() {
@@ -419,6 +423,9 @@ func persistCase(c *Ctx, o persistObj, second *persistObj) {
 	for cut := 0; cut < len(raw); cut += step {
 		t := o.fresh()
 		var rerr error
+		if cut%16 == 0 {
+			c.pending([]string{"C18"}, o.kind+"-prefix-kills-process", fmt.Sprintf("%s: ReadFrom of a prefix (around byte %d of %d) ended the process (fatal runtime error)", o.kind, cut, len(raw)), map[string]interface{}{"kind": o.kind, "image_hex": hexStr(raw), "cut_from": cut})
+		}
 		res := safely(func() { _, rerr = t.readFrom(wrapReader(bytes.NewReader(raw[:cut]), cut%4, int64(cut))) })
 		c.rep.Ops["ReadFrom.prefix"]++
 		if res.panicked {
@@ -434,6 +441,7 @@ func persistCase(c *Ctx, o persistObj, second *persistObj) {
 			emitted++
 		}
 	}
+	c.done()
 	// ---- C18: every strict prefix of the JSON document is rejected by Import
 	doc, err := o.export()
 	if err != nil {
